@@ -1,11 +1,31 @@
 import Mp4ff.Model.Cenc
+import Mp4ff.Lemmas.C07
 /-!
 # C06 — decrypting what was encrypted restores the content
-(Property theorems are added from `Mp4ff/Lemmas/Cenc*.lean` when completed.)
+Property theorems (proofs in `Mp4ff/Lemmas/C07.lean`, `CencCipher.lean`), over an abstract block cipher.
 -/
 namespace Mp4ff.Cenc.C06
 
-/-- encryption and decryption use the same per-byte protection mask: the mask depends only on the sub-sample list -/
-theorem mask_deterministic (a b : List SubSample) (h : a = b) : maskOf a = maskOf b := by rw [h]
+/-- **cenc**: AES-CTR over the same sub-sample map and IV is its own inverse, for every sample, every map that fits,
+    every IV, every block function -/
+theorem cryptCenc_involutive (E : Block → Block) (hE : ∀ b, (E b).length = 16 ∧ IsBytes (E b))
+    (sample iv : Bytes) (hs : IsBytes sample) (ranges : List SubSample) (hf : RangesFit ranges sample.length) :
+    cryptCenc E (cryptCenc E sample iv ranges) iv ranges = sample :=
+  Cenc.cryptCenc_involutive E hE sample iv hs ranges hf
+
+/-- CBC decryption inverts CBC encryption when `D` inverts `E` -/
+theorem cbcDec_cbcEnc (E D : Block → Block) (hED : ∀ b, b.length = 16 → IsBytes b → D (E b) = b)
+    (hE : ∀ b, (E b).length = 16 ∧ IsBytes (E b))
+    (chain data : Bytes) (hc : chain.length = 16) (hcb : IsBytes chain) (hd : IsBytes data) (hl : data.length % 16 = 0) :
+    (cbcDec D chain (cbcEnc E chain data).1).1 = data := Cenc.cbcDec_cbcEnc E D hED hE chain data hc hcb hd hl
+
+/-- **cbcs**: the pattern cipher's decrypt ∘ encrypt is the identity for every crypt/skip pattern in whole blocks
+    (1:9 video pattern, unpatterned audio, …), any data length (the partial last block stays clear) -/
+theorem cbcsCrypt_roundtrip (E D : Block → Block) (hED : ∀ b, b.length = 16 → IsBytes b → D (E b) = b)
+    (hE : ∀ b, (E b).length = 16 ∧ IsBytes (E b))
+    (data iv : Bytes) (hiv : iv.length = 16) (hivb : IsBytes iv) (hd : IsBytes data) (crypt skip : Nat)
+    (hc : crypt % 16 = 0) (hs : skip % 16 = 0) :
+    cbcsCrypt (cbcDec D) (cbcsCrypt (cbcEnc E) data iv crypt skip) iv crypt skip = data :=
+  Cenc.cbcsCrypt_roundtrip E D hED hE data iv hiv hivb hd crypt skip hc hs
 
 end Mp4ff.Cenc.C06
